@@ -1,5 +1,6 @@
 import EmmyVerif.Lemmas.IndexDb
 import EmmyVerif.Lemmas.IndexModule
+import EmmyVerif.Lemmas.IndexModuleKeys
 /-!
 # C10 — Removed files leave no trace
 
@@ -10,8 +11,8 @@ file-tagged mutations. `build ms` is the state reached by applying the mutations
 file whose analysis performs it) to the empty index. Tied to the Rust by the `index.mod` / `index.db`
 correspondence runs of `./check C10`; the analysis' cross-file inference is judged by the oracle only.
 
-Proved here: module index, per-file maps, keyed vector maps (lookups and entry counts).
-Not yet proved (model + tie exist): nested and id-owned maps. Not modelled yet: type / member / operator indexes.
+Proved here: module index (no trace, exact node arena, entry counts), per-file maps, keyed vector maps (lookups and entry counts), nested per-file maps, id-owned maps
+(signatures). Not modelled yet: type / member / operator indexes.
 The doc-property index violates the property (`C10_property_remove_erases_witness`): open finding.
 -/
 namespace Index
@@ -62,6 +63,39 @@ theorem C10_module_remove_no_trace (cfg : Config) (ops : List Op) (f : Nat) :
     rw [h'.infos, h.infos]
     exact find_filter_ne _ hg
 
+open Module in
+/-- **C10 module index: the node arena is exact.** After every history the nodes of the module tree are,
+each exactly once, the root and the non-empty prefixes of the live module paths: nothing of a removed or
+re-submitted file stays behind (this is what the `fix:` of `LuaModuleIndex::remove` restored). -/
+theorem C10_module_nodes_exact (cfg : Config) (ops : List Op) :
+    (akeys (run cfg ops).nodes).Nodup ∧
+    ∀ q, q ∈ akeys (run cfg ops).nodes ↔ (q = [] ∨ (q ≠ [] ∧ ∃ e ∈ specLive cfg ops, q <+: e.path)) :=
+  ⟨(keyinv_run cfg ops).nodup, (keyinv_run cfg ops).keys⟩
+
+open Module in
+/-- **C10 module index: no leak.** The number of tree nodes and of `file_module_map` entries is a function
+of the live set alone — whatever was added, re-submitted or removed on the way. -/
+theorem C10_module_no_leak (cfg : Config) (ops₁ ops₂ : List Op) (h : specLive cfg ops₁ = specLive cfg ops₂) :
+    (run cfg ops₁).nodes.length = (run cfg ops₂).nodes.length ∧
+    (run cfg ops₁).infos.length = (run cfg ops₂).infos.length :=
+  sizes_of_live cfg ops₁ ops₂ h
+
+open Module in
+/-- **C10 module index: add then remove restores the sizes.** -/
+theorem C10_module_add_remove_restores (cfg : Config) (ops : List Op) (f : Nat) (path : List Char)
+    (hf : ∀ e ∈ specLive cfg ops, e.file ≠ f) :
+    (run cfg (ops ++ [Op.add f path, Op.remove f])).nodes.length = (run cfg ops).nodes.length ∧
+    (run cfg (ops ++ [Op.add f path, Op.remove f])).infos.length = (run cfg ops).infos.length := by
+  apply sizes_of_live
+  have e : ops ++ [Op.add f path, Op.remove f] = (ops ++ [Op.add f path]) ++ [Op.remove f] := by simp
+  rw [e, specLive_append, specLive_append]
+  show specRemove (specStep cfg (specLive cfg ops) (Op.add f path)) f = specLive cfg ops
+  rw [specRemove_add]
+  unfold specRemove
+  rw [List.filter_eq_self]
+  intro a ha
+  simpa using hf a ha
+
 namespace Db
 
 /-- **C10 per-file maps: `remove_exact`.** After `remove f` every per-file map (dependencies, diagnostics,
@@ -84,6 +118,19 @@ theorem C10_keyed_no_leak (ms : List FMut) (f : File) :
     (remove (build ms) f).keyed.length = (build (ms.filter fun m => m.1 ≠ f)).keyed.length :=
   length_eq_of_aget_eq _ _ (keyed_remove_nodup ms f) (keyed_keys_nodup _)
     (fun k => by rw [keyed_remove_exact])
+
+/-- **C10 nested per-file maps: `remove_exact`.** After `remove f` every `index_reference` /
+`global_references`-shaped map is exactly the map the other files' mutations build: the inner entry of `f`
+is gone, the other files' inner entries are unchanged, and a key referenced only by `f` is gone. -/
+theorem C10_nested_remove_exact (ms : List FMut) (f : File) (k : Nat × Nat) :
+    aget (remove (build ms) f).nested k = aget (build (ms.filter fun m => m.1 ≠ f)).nested k :=
+  nested_remove_exact ms f k
+
+/-- **C10 id-owned maps: `remove_exact`.** After `remove f` every `signatures`-shaped map (ids carry their
+file, a per-file list records them) is exactly the map the other files' mutations build. -/
+theorem C10_owned_remove_exact (ms : List FMut) (f : File) (k : Nat × File × Nat) :
+    aget (remove (build ms) f).owned k = aget (build (ms.filter fun m => m.1 ≠ f)).owned k :=
+  owned_remove_exact ms f k
 
 /-- file 1 documents owner 0 (description 7); file 2 adds a `source` to the same owner -/
 def propWitness : List FMut := [(1, .prop 0 0 7), (2, .prop 0 1 9)]
